@@ -2006,8 +2006,8 @@ CLAUSES = [
                 'as elsewhere, nothing moves when the caller overwrites what it handed over; result ledger'),
     Clause('units', oracle_units, units_cases, quick=900, thorough=20000,
            # (shares on the unchanged tree, where KEY_UNITS excludes Stroh under most configurations; about twice that with the repair)
-           min_share={'accepted': 0.25, 'judged': 0.25, 'nt': 0.1, 'two_configurations_compared': 0.18, 'ledger_across_reset': 0.22, 'units_SI': 0.02,
-                      'units_seed': 0.025, 'units_named': 0.25, 'stiffness_numbers_moderate': 0.15, 'units_answer_Stroh': 0.1,
+           min_share={'accepted': 0.25, 'judged': 0.25, 'nt': 0.1, 'two_configurations_compared': 0.18, 'ledger_across_reset': 0.22, 'units_SI': 0.01,
+                      'units_seed': 0.008, 'units_named': 0.25, 'stiffness_numbers_moderate': 0.15, 'units_answer_Stroh': 0.1,
                       'units_answer_IsotropicVolterraDislocation': 0.14, 'angstrom_differs': 0.28},
            desc='working-unit configurations (reset_units: named units, integer seed, SI) before / between calls in one process: the '
                 'physical problem (GPa, angstrom) expressed in working units with my own products of numericalunits attributes is '
